@@ -117,6 +117,12 @@ func getFloatToIntFunction() schema.CallableFunction {
 				return math.MinInt64, nil
 			case math.IsNaN(a):
 				return math.MinInt64, fmt.Errorf("attempted to convert a NaN float to an integer")
+			case a >= math.MaxInt64:
+				// Finite values beyond the range of a 64-bit integer saturate, like the infinities.
+				// float64(math.MaxInt64) is 2^63, which is already out of range.
+				return math.MaxInt64, nil
+			case a <= math.MinInt64:
+				return math.MinInt64, nil
 			}
 			return int64(a), nil
 		},
